@@ -130,6 +130,8 @@ def as_bool(v):
         if isinstance(v.sort(), z3.BitVecSortRef):
             return v != 0
     if isinstance(v, VList):
+        if getattr(v, "none", None) is not None:
+            return z3.And(z3.Not(v.none), v.len > 0)
         return v.len > 0
     if isinstance(v, VRef):
         return v.ref != 0
